@@ -67,6 +67,9 @@ pub fn run(a: &Args) {
         add("zero.so", vec![0u8; 64], None, None, 0, "r-x", false, &mut files);
         add("libé.so.3rc5", rtext(&mut rng, 32), Some(rid(&mut rng)), None, 0, "r-x", false, &mut files);
         add("gone.so.7", rtext(&mut rng, 40), Some(rid(&mut rng)), Some("libgone.so.7"), 0, "r-x", true, &mut files);
+        // identifiers shorter than a GUID (8 bytes: what `--build-id=fast` produces) and of 16 bytes exactly: recorded as they are
+        add("libshort.so", rtext(&mut rng, 48), Some((0..8).map(|_| rng.next() as u8 | 1).collect()), None, 0, "r-x", false, &mut files);
+        add("libguid.so", rtext(&mut rng, 48), Some((0..16).map(|_| rng.next() as u8 | 1).collect()), None, 0, "r-x", false, &mut files);
         // a SONAME as long as a file name can be (255 bytes), and a longer one
         let long_so = format!("lib{}.so.7", "x".repeat(if case % 2 == 0 { 248 } else { 300 }));
         add("liblongname.so", rtext(&mut rng, 56), Some(rid(&mut rng)), Some(&long_so), 0, "r-x", false, &mut files);
@@ -124,6 +127,7 @@ pub fn run(a: &Args) {
         if case % 2 == 1 {
             if let Some(m) = maps_before.iter().find(|m| m.name.ends_with("libnote.so")) { users.push((m.start, m.end - m.start, "/user/supplied/libnote.so".into(), rid(&mut rng))); }
             users.push((0x1000_0000, 0x2000, "/user/other.so.9".into(), if rng.chance(1, 2) { vec![] } else { rid(&mut rng) }));
+            users.push((0x1100_0000, 0x1000, "/user/short-id.so".into(), vec![0xab, 0xcd, 0xef]));   // a 3-byte identifier, listed verbatim
         }
         let mut writer = MinidumpWriter::new(target.pid, target.pid);
         if !users.is_empty() { writer.set_user_mapping_list(users.iter().map(|(s, sz, n, id)| MappingEntry { mapping: MappingInfo { start_address: *s as usize, size: *sz as usize,
